@@ -1214,7 +1214,7 @@ def gen_paused_subscriber(seed, mode="dispatch"):
     sc = Sc("dispatch", "paused subscriber (%s) seed=%d" % (variant, seed))
     W, D = 1, 2
     sc.mod(W, "watch", 0, 0)
-    sc.mod(D, "doer", 0, r.choice([0, 4]))
+    sc.mod(D, "doer", r.choice([0, 0, MOD_DENY_PUB, MOD_DENY_PUB | MOD_DENY_CTX]), r.choice([0, 4]))
     sc.cb(W, "evt", "*", [])
     sc.cb(D, "evt", "*", [])
     sc.cb(D, "stop", "*", [])
@@ -1507,7 +1507,8 @@ def gen_sysnotif(seed, mode="loop"):
     driven_skeleton(sc)
     nm = r.randrange(2, 6)
     for i in range(1, nm + 1):
-        sc.mod(i, "s%d" % i, 0, r.choice([0, 4, 6, 7, 2]))
+        # (a module that may not publish still has its transitions announced: the library is the one telling)
+        sc.mod(i, "s%d" % i, MOD_DENY_PUB if r.random() < 0.25 else 0, r.choice([0, 4, 6, 7, 2]))
         sc.cb(i, "eval", "*", [], ret=1)
         # transitions nested in the lifecycle callbacks themselves: a start callback that pauses / stops its module or
         # refuses the start, a stop callback that starts the module again
